@@ -162,15 +162,49 @@ class Op(Expr):
         return "Op(%s,%s)" % (self.op, ",".join(repr(arg) for arg in self.args))
 
     def __str__(self):
+        # Parentheses follow what imperative.parser2 does with the printed
+        # text: the arithmetic operators share one priority and group to the
+        # right, a unary minus applies to everything after it, ~ applies to an
+        # atomic condition, &, |, --> group to the right in this order of
+        # priority, and if / forall extend as far to the right as possible (so
+        # they are parenthesised whenever they are an operand).
+        def is_arith(e):
+            return isinstance(e, Op) and e.op in ('+', '-', '*')
+
+        def is_neg_const(e):
+            return isinstance(e, Const) and type(e.val) == int and e.val < 0
+
+        def is_open(e):
+            return isinstance(e, (ITE, Forall))
+
+        prio = {'&': 35, '|': 30, '-->': 25, '<-->': 25}
+
         if len(self.args) == 1:
-            return "%s%s" % (self.op, str(self.args[0]))
+            arg = self.args[0]
+            s = str(arg)
+            if self.op == '-':
+                if is_arith(arg) and len(arg.args) == 2:
+                    s = '(' + s + ')'
+            elif (isinstance(arg, Op) and (arg.op in prio or arg.op == '~')) or is_open(arg):
+                s = '(' + s + ')'
+            return "%s%s" % (self.op, s)
         elif len(self.args) == 2:
             arg1 = str(self.args[0])
             arg2 = str(self.args[1])
-            if self.op == '*' and isinstance(self.args[0], Op) and self.args[0].op in ('+', '-'):
-                arg1 = '(' + arg1 + ')'
-            if self.op == '*' and isinstance(self.args[1], Op) and self.args[1].op in ('+', '-'):
-                arg2 = '(' + arg2 + ')'
+            if self.op in ('+', '-', '*'):
+                if is_arith(self.args[0]) or is_neg_const(self.args[0]):
+                    arg1 = '(' + arg1 + ')'
+                if self.op == '*' and isinstance(self.args[1], Op) and len(self.args[1].args) == 2 \
+                   and self.args[1].op in ('+', '-'):
+                    arg2 = '(' + arg2 + ')'
+            elif self.op in prio:
+                p = prio[self.op]
+                if (isinstance(self.args[0], Op) and self.args[0].op in prio and prio[self.args[0].op] <= p) \
+                   or is_open(self.args[0]):
+                    arg1 = '(' + arg1 + ')'
+                if (isinstance(self.args[1], Op) and self.args[1].op in prio and prio[self.args[1].op] < p) \
+                   or is_open(self.args[1]):
+                    arg2 = '(' + arg2 + ')'
             return "%s %s %s" % (arg1, self.op, arg2)
         else:
             raise NotImplementedError
